@@ -154,6 +154,9 @@ func main() {
 		// fresh obligation list per property, shared program
 		c = &Ctx{RepoDir: c0.RepoDir, Pkgs: c0.Pkgs, byPath: c0.byPath, Prog: c0.Prog, Fset: c0.Fset, SrcFns: c0.SrcFns,
 			ruleDocs: map[string]string{}, ruleMin: map[string]int{}, idx: c0.idx, lockA: c0.lockA}
+		if c.lockA != nil {
+			c.lockA.c = c
+		}
 		func() {
 			defer func() {
 				if r := recover(); r != nil {
